@@ -6,7 +6,7 @@ use crate::mockca::{Action, Fault, Pos};
 use crate::oracle::{der, keys};
 use proptest::prelude::*;
 
-fn pair_state(crt: &Option<Vec<u8>>, key: &Option<Vec<u8>>) -> Result<(), (String, String)> {
+pub fn pair_state(crt: &Option<Vec<u8>>, key: &Option<Vec<u8>>) -> Result<(), (String, String)> {
 	let Some(c) = crt else { return Ok(()) };
 	let chain = keys::inspect_chain_file(c).map_err(|e| ("C03:cert-unparseable".to_string(), format!("certificate file ({} bytes) is not a parseable chain: {e}", c.len())))?;
 	let leaf = der::parse_cert(&chain[0]).map_err(|e| ("C03:cert-unparseable".to_string(), e))?;
@@ -38,7 +38,7 @@ pub fn judge(case: &FaultCase, run: &FaultRun) -> Outcome {
 		let served = a.reqs.iter().any(|i| {
 			let l = &run.snap.log[*i];
 			// a download that carries a usable chain (the garbled ones count as "no certificate obtained")
-			l.pos == Pos::Cert && l.status == 200 && !matches!(l.action.as_deref(), Some("NonPemBody") | Some("DamagedChain"))
+			l.pos == Pos::Cert && l.status == 200 && !matches!(l.action.as_deref(), Some("NonPemBody") | Some("DamagedChain") | Some("ReversedChain"))
 		});
 		if !served && a.before.0.is_some() && a.before.1.is_some() && pair_state(&a.before.0, &a.before.1).is_ok() && (a.after.0 != a.before.0 || a.after.1 != a.before.1) {
 			let which = if a.after.1 != a.before.1 { "key file" } else { "certificate file" };
@@ -75,7 +75,7 @@ pub fn multi_fault_strategy(max_attempts: usize) -> impl Strategy<Value = FaultC
 		f.nth = nth;
 		f
 	});
-	(proptest::collection::vec(fault, 2..=5), any::<bool>(), any::<bool>(), 1..=max_attempts, any::<bool>()).prop_map(|(faults, previous_pair, kp_reuse, attempts, nonce_on_get)| FaultCase { faults, previous_pair, kp_reuse, attempts, nonce_on_get, hook_faults: vec![], file_hooks: false, retry_after: None, processing: false, mixed_hooks: false })
+	(proptest::collection::vec(fault, 2..=5), any::<bool>(), any::<bool>(), 1..=max_attempts, any::<bool>()).prop_map(|(faults, previous_pair, kp_reuse, attempts, nonce_on_get)| FaultCase { faults, previous_pair, kp_reuse, attempts, nonce_on_get, hook_faults: vec![], file_hooks: false, retry_after: None, processing: false, mixed_hooks: false, early_renew: false })
 }
 
 pub fn single_cases(tier: Tier) -> Vec<FaultCase> {
@@ -94,7 +94,7 @@ pub fn single_cases(tier: Tier) -> Vec<FaultCase> {
 			Tier::Thorough => vec![(true, false), (true, true), (false, false), (false, true)],
 		};
 		for (pp, kr) in variants {
-			out.push(FaultCase { faults: vec![f.clone()], previous_pair: pp, kp_reuse: kr, attempts: 1, nonce_on_get: false, hook_faults: vec![], file_hooks: false, retry_after: None, processing: false, mixed_hooks: false });
+			out.push(FaultCase { faults: vec![f.clone()], previous_pair: pp, kp_reuse: kr, attempts: 1, nonce_on_get: false, hook_faults: vec![], file_hooks: false, retry_after: None, processing: false, mixed_hooks: false, early_renew: false });
 		}
 	}
 	out
